@@ -371,6 +371,10 @@ def compare(case, ir, mo):
     real parser still accepts, stated size beyond the bytes sent) are diagnostics."""
     out, sel = ir["out"], ir["sel"]
     first = None
+    defs = {}
+    for line, o in zip(ir["mlines"], mo):
+        if line.startswith("def "):
+            defs["@" + line.split()[1]] = o
     for i, (a, si) in enumerate(zip(out, sel)):
         m = mo[si]
         mm = m if m.startswith("ok") else "err"
@@ -383,7 +387,7 @@ def compare(case, ir, mo):
         if fault[0] == "ub-flip":
             # why did the model refuse? look at the `def` replies among this fault's lines
             lo = sel[i - 1] + 1 if i else 0
-            blk = [x for x in mo[lo:si] if x.startswith("def ")]
+            blk = [defs.get(l.split()[1], "") for l in ir["mlines"][lo:si] if l.startswith("file ")]
             lenient = m == "err outside" or any(x in ("def err noncanonical", "def err nonascii", "def outside") for x in blk)
             if a.startswith("ok") and lenient:
                 key = ("diag", "ub-edit accepted by the lenient real parser")
@@ -398,18 +402,18 @@ def compare(case, ir, mo):
 def gen_cases(ctx):
     rng = ctx.rng
     cases = []
-    nq = 150 if ctx.quick else 900
+    nq = 150 if ctx.quick else 600
     for i in range(nq):
         n = rng.choice([1, 2, 2, 3, 3, 4])
         cases.append(dict(kind="rec", cls=rng.choice(["ih5", "mf"]), seed=rng.randrange(1 << 30), n=n,
                           open_last=rng.random() < 0.3, mode="quick" if ctx.quick else "more"))
     if not ctx.quick:
-        for i in range(28):
+        for i in range(21):
             n = [1, 2, 2, 3, 3, 4, 2][i % 7]
             cases.append(dict(kind="rec", cls=["ih5", "mf"][i % 2], seed=rng.randrange(1 << 30), n=n,
                               open_last=(i % 5 == 4), mode="all", all_insdel=(n <= 2)))
         cases = cases[nq:] + cases[:nq]  # the long cases first
-        ctx.exhaustive_spaces.append("28 records (both classes, 1-4 containers): a flip at EVERY byte position of every committed payload "
+        ctx.exhaustive_spaces.append("21 records (both classes, 1-4 containers): a flip at EVERY byte position of every committed payload "
                                      "(random non-zero mask); for the records with <= 2 containers also an insertion and a deletion at every position")
     return cases
 
@@ -476,9 +480,9 @@ def shrink(ctx, case, detail):
 
 
 def search(ctx):
-    for s in range(1, 4):
+    for s in range(1, 3):
         sub = core.Ctx(ID, "quick", ctx.seed + 7919 * s)
-        cases = gen_cases(sub)
+        cases = gen_cases(sub)[:100]
         res = pool.run(MOD, "impl", cases, timeout=120)
         ctx.search_log.append("seed %d: %d records, oracle only" % (sub.seed, len(cases)))
         for c, r in zip(cases, res):
